@@ -266,7 +266,11 @@ async function execProgram(req) {
     if (req.kind !== 'module' && req.lexicals && req.lexicals.length) {
       for (const n of req.lexicals) {
         let v;
-        try { v = vm.runInContext('__ser(' + n + ')', ctx, { timeout }); } catch (e) { v = 'unreadable(' + (e && e.name) + ')'; }
+        try { v = vm.runInContext('__ser(' + n + ')', ctx, { timeout }); } catch (e) {
+          // the wall-clock watchdog expiring here (loaded machine) is not an observation about the program
+          if (e && e.code === 'ERR_SCRIPT_EXECUTION_TIMEOUT') { res.inconclusive = 'watchdog'; break; }
+          v = 'unreadable(' + (e && e.name) + ')';
+        }
         res.lexicals.push(n + '=' + v);
       }
     }
